@@ -72,7 +72,14 @@ SPEC = {
                    "creator killed after each of its first 0..6 calls followed by a second opener, every 0..5 x 0..5 "
                    "prefix of two racing creators; after every call of an opener the file length and the presence of "
                    "the header are compared with Model/FileCreate; at the end: every surviving process has opened the "
-                   "file and its counter is in a well-formed file with the right value. distinct = distinct case lines"),
+                   "file and its counter is in a well-formed file with the right value. Scenarios grow / grow-fault: a valid "
+                   "file whose first page is nearly full, every opener records a 4 KiB name so that its newCounter must "
+                   "extend the file; kills at any of the first 40 scheduling points of an opener (through the open, the "
+                   "Stat / WriteAt / re-open of extend and the limit CAS), in grow-fault one file-system call of the "
+                   "first 14 fails with ENOSPC or EIO (no lock-step then, oracles only, and a survivor's own failure is "
+                   "not judged); after EVERY step the allocation limit read from the file must not exceed the file "
+                   "length (class limit-beyond-file, theorem C04_limit_within_file); in the use phase the model follows "
+                   "the observed growth (whole pages only, header unchanged). distinct = distinct case lines"),
     ],
     "technique": "Coq inductive invariant (rely/guarantee: shared well-formedness + per-process facts stable under "
                  "every action of every other process) of a transition system at atomic-operation granularity over "
@@ -94,6 +101,8 @@ SPEC = {
                   "limit or the size), C04_bounded + C04_ledger_exact + C04_exact_at_quiescence (value = saturated sum "
                   "of initial value and the increments whose cell CAS succeeded <= increments begun; survivors that "
                   "returned have nothing pending, a killed process at most its last increment), "
+                  "C04_limit_within_file (limit <= size at every instant = every kill point, and the step that moves the limit "
+                  "publishes an offset the file had reached BEFORE that step: extension first, CAS after), "
                   "C04_failures_classified (a call fails only for its own empty or over-long name, in the "
                   "stale-mapping class, or because the reservation would pass 4 GiB (errCorrupt of fix 633eed3): the cycle guards, writeEntryAt's, extend's and "
                   "the corrupt-limit tests never fire), C04_failure_shapes (FBeyond only after the process has reserved and written its record, FTries only "
